@@ -3,12 +3,13 @@
 
   Specification: `Avt.Spec.C08` (`sgrRefOps`, `paramsOf`, `parseSgrText`, `Pen.obs`, `obsStep`,
   `obsRef`, `penRef`, `noForeignCells`, …).  Helpers: Avt/Lemmas/C08Pen.lean, C08Decode.lean,
-  C08Cells.lean, C08Text.lean.  All statements are unbounded.
+  C08Cells.lean, C08Text.lean, C08PenFrame.lean.  All statements are unbounded.
 -/
 import Avt.Lemmas.C08Pen
 import Avt.Lemmas.C08Decode
 import Avt.Lemmas.C08Cells
 import Avt.Lemmas.C08Text
+import Avt.Lemmas.C08PenFrame
 
 namespace Avt.Props.C08
 open Avt Avt.Spec.C08
@@ -208,6 +209,83 @@ example : (do
     let t2 ← t1.execute (.el .toRight)
     pure (writesWithPen (.el .toRight) && noForeignCells t1.pen t1.buffer.view t2.buffer.view
           && t2.buffer.view.any fun l => l.cells.any fun c => c.pen != Pen.default)) = some true := by
+  decide
+
+/-! ### the pen is state: only SGR, the restores and the resets change it -/
+
+/-- **Function level.**  A function other than SGR, DECRC, SCORC, DECRST 1048 / 1049, DECSTR and RIS
+    (`setsPen`) leaves the pen exactly as it was — every terminal state, every geometry, no
+    invariant needed.  In particular printing, erasing, scrolling, saving the cursor, setting any DEC
+    mode (1049 included: it saves, it does not restore) and both directions of the plain switch of
+    screens (DECSET / DECRST 47, 1047, with the reflow that follows) keep the pen, so "every cell
+    printed or blanked afterwards" is printed or blanked with the fold of the SGR parameters. -/
+theorem C08_pen_persists {t t' : Terminal} {f : Function} (hf : setsPen f = false)
+    (h : t.execute f = some t') : t'.pen = t.pen :=
+  Avt.C08P.frame hf h
+
+/-- **Call level.**  If none of the functions the parser emits for the input (from the parser state
+    the call starts in) sets the pen, then the fold of `execute` over them, per-character `Vt::feed`,
+    `Vt.feedAll` and `Vt::feed_str` (which ends with `changes()` + `gc()`) all leave the pen as it
+    was.  This is the clause `pen-persists` of the oracle (`Spec.C08.checkPenFrame`). -/
+theorem C08_pen_persists_feed {v : Vt} {xs : List Nat}
+    (hf : ∀ f ∈ Frame.emitted v.parser xs, setsPen f = false) :
+    (∀ t', Terminal.foldM' Terminal.execute (Frame.emitted v.parser xs) v.terminal = some t' →
+        t'.pen = v.terminal.pen)
+    ∧ (∀ v', v.feedAll xs = some v' → v'.terminal.pen = v.terminal.pen)
+    ∧ (∀ v' ch, v.feedStr xs = some (v', ch) → v'.terminal.pen = v.terminal.pen)
+    ∧ (∀ c v', xs = [c] → v.feed c = some v' → v'.terminal.pen = v.terminal.pen) :=
+  ⟨fun _ h => Avt.C08P.frame_many hf h,
+   fun _ h => Avt.C08P.feedAll_pen xs hf h,
+   fun _ _ h => Avt.C08P.feedStr_pen hf h,
+   fun _ _ e h => Avt.C08P.feed_pen (by rw [← e]; exact hf) h⟩
+
+/-- **Resize.**  `Terminal::resize` (any old and new geometry, either screen) and `Vt::resize` leave
+    the pen as it was.  This is the clause `resize-keeps-pen` of the oracle. -/
+theorem C08_pen_persists_resize :
+    (∀ {t t' : Terminal} {cols rows : Nat}, t.resize cols rows = some t' → t'.pen = t.pen)
+    ∧ (∀ {v v' : Vt} {cols rows : Nat} {ch : Changes}, v.resize cols rows = some (v', ch) →
+        v'.terminal.pen = v.terminal.pen) :=
+  ⟨fun h => Avt.C08P.resize_pen h, fun h => Avt.C08P.vtResize_pen h⟩
+
+/-- which DEC modes count: setting never does; resetting does exactly when 1048 or 1049 is among the
+    modes -/
+theorem C08_setsPen_modes (ms : List DecMode) :
+    setsPen (.decset ms) = false
+    ∧ (setsPen (.decrst ms) = true ↔ .saveCursor ∈ ms ∨ .saveCursorAltScreenBuffer ∈ ms) := by
+  refine ⟨rfl, ?_⟩
+  simp only [setsPen, List.any_eq_true]
+  constructor
+  · rintro ⟨m, hm, hp⟩
+    cases m <;> simp only [restoresPen, Bool.false_eq_true] at hp
+    · exact Or.inl hm
+    · exact Or.inr hm
+  · rintro (h | h)
+    · exact ⟨_, h, rfl⟩
+    · exact ⟨_, h, rfl⟩
+
+/-! the hypotheses are satisfiable: a 4x3 terminal with a bold red pen (`CSI 1;31 m`) enters the
+    alternate screen (`CSI ?1047h`), prints, scrolls it (three LF, `CSI S`), leaves it again
+    (`CSI ?1047l`) and is resized: none of the seven emitted functions sets the pen, and the pen is
+    still bold red — while a `CSI ?1048l` from the same state does count (and gives back the default
+    pen of the never-saved context) -/
+
+private def exFrameIn : List Nat :=
+  [0x1b, 0x5b, 0x3f, 0x31, 0x30, 0x34, 0x37, 0x68, 0x61, 0x0a, 0x0a, 0x0a, 0x1b, 0x5b, 0x53,
+   0x1b, 0x5b, 0x3f, 0x31, 0x30, 0x34, 0x37, 0x6c]
+
+example : (do
+    let v ← Vt.new 4 3 none
+    let (v0, _) ← v.feedStr [0x1b, 0x5b, 0x31, 0x3b, 0x33, 0x31, 0x6d]
+    let (v1, _) ← v0.feedStr exFrameIn
+    let (v2, _) ← v1.resize 7 2
+    let (v3, _) ← v2.feedStr [0x1b, 0x5b, 0x3f, 0x31, 0x30, 0x34, 0x38, 0x6c]
+    pure (Pen.obs v0.terminal.pen == (some (.indexed 1), none, true, false, false, false, false, false, false)
+          && Frame.emitted v0.parser exFrameIn
+               == [.decset [.altScreenBuffer], .print 0x61, .lf, .lf, .lf, .su 0, .decrst [.altScreenBuffer]]
+          && (Frame.emitted v0.parser exFrameIn).all (fun f => !setsPen f)
+          && v1.terminal.pen == v0.terminal.pen && v2.terminal.pen == v0.terminal.pen
+          && (v2.terminal.cols, v2.terminal.rows) == (7, 2)
+          && setsPen (.decrst [.saveCursor]) && Pen.obs v3.terminal.pen == Obs.default)) = some true := by
   decide
 
 end Avt.Props.C08
